@@ -8,6 +8,7 @@ ID = "C20"
 HEAP_SUMMARY = True      # end every program with the reference-level observation (BB.Model.Heap vs id() walk)
 UNIVERSAL_EVERY = 8      # every n-th case is a feature-rich random program (props/universal.py)
 LEAN_MODULE = "BB.Properties.C20"
+EXTRA_TARGETS = ["BB.Proofs.G13C20"]      # sequence-level theorems of namespace BB.C20 kept apart for import reasons
 QUICK_N = 480
 THOROUGH_N = 5000
 RULE = ("pairs (a, b): b = a.copy() of a blueprint / element / sequence (blueprint channels only), then 0-4 public mutations "
